@@ -2,10 +2,12 @@ package main
 
 import (
 	"encoding/json"
+	"fmt"
 	"math/rand"
 	"sort"
 	"strconv"
 	"strings"
+	"time"
 
 	"pault.ag/go/debian/version"
 )
@@ -128,8 +130,26 @@ func execVersion(vec J, out *Writer) {
 			vv[i] = verFromJ(M(vs[i]))
 		}
 		done := make(chan bool, 1)
-		go func() { sort.Sort(vv); done <- true }()
-		terminated := waitOrTimeout(done, 10)
+		died := make(chan string, 1)
+		go func() {
+			defer func() {
+				if r := recover(); r != nil {
+					died <- fmt.Sprint(r)
+				}
+			}()
+			sort.Sort(vv)
+			done <- true
+		}()
+		terminated := false
+		select {
+		case <-done:
+			terminated = true
+		case msg := <-died:
+			// the comparison panicked inside sort.Sort (a goroutine of its own: the exec loop's guard cannot see it)
+			out.Put(J{"ev": "crash", "in": vec, "kind": "panic", "msg": B(msg)})
+			return
+		case <-time.After(10 * time.Second):
+		}
 		outl := make([]J, 0, len(vv))
 		if terminated {
 			for _, v := range vv {
